@@ -302,7 +302,7 @@ func runC14(env core.Env, rep *core.Report) {
 	wire.SetLimits(c14Limit)
 	maxPayload := uint64(2 * 1024 * 1024)
 	rep.Rule = "one evaluation = one encode/decode round trip of one message shape under one protocol version, or one decode of one mutated frame; non-trivial = a boundary field value / limit-size list, or any mutated frame; distinct by (kind, shape, version) or (seed frame, mutation)"
-	rep.Bound = "[round trip: 16 kinds x shapes (counts 0,1,2,limit; limit+1 must be refused; each scalar over its boundary alphabet) x protocol versions {70013,70012,70011,70002,70001}] [hostile: for every seed frame with <=2 elements: every single-bit flip of the frame, every truncation, 8 length-field values, every payload bit flip / truncation / varint splice at every position with recomputed checksum, one splice per ordered pair of kinds at every cut, wrong magic, bad checksum, unknown and invalid-UTF-8 command]"
+	rep.Bound = "[round trip: 16 kinds x shapes (counts 0,1,2,limit; limit+1 must be refused; each scalar over its boundary alphabet) x protocol versions {70013,70012,70011,70002,70001}] [hostile: for every seed frame with <=2 elements: every single-bit flip of the frame, every truncation, 8 length-field values, every payload bit flip / truncation / varint splice at every position with recomputed checksum, one splice per ordered pair of kinds at every cut, wrong magic, bad checksum, unknown and invalid-UTF-8 command] [thorough adds: every value of every payload byte, every pair of payload bit flips (payloads <= 96 bytes), splices at every pair of cuts]"
 	progress, _ := os.OpenFile(env.Out+".progress", os.O_CREATE|os.O_RDWR, 0o644)
 	mark := func(s string) {
 		if progress != nil {
@@ -355,7 +355,9 @@ func runC14(env core.Env, rep *core.Report) {
 				viol("roundtrip.reencode/"+s.Kind, fmt.Sprintf("%s %s pver %d: re-encoding the decoded message does not reproduce the bytes (%v)", s.Kind, s.Desc, pver, err), rp, len(frame), len(f2))
 			}
 			rep.Outcome("roundtrip:" + s.Kind)
-			rep.Sample(func() any { return map[string]any{"kind": s.Kind, "shape": s.Desc, "pver": pver, "frame_bytes": len(frame)} })
+			rep.Sample(func() any {
+				return map[string]any{"kind": s.Kind, "shape": s.Desc, "pver": pver, "frame_bytes": len(frame)}
+			})
 		}
 	}
 	// ---- hostile bytes ----------------------------------------------------------------------
@@ -476,6 +478,33 @@ func runC14(env core.Env, rep *core.Report) {
 				judge("varint-splice", s, fmt.Sprintf("payload[%d] := varint #%d", i, vi), reframe(f, p), false)
 			}
 		}
+		if env.Tier == "thorough" {
+			// (g) every value of every payload byte, (h) every pair of payload bit flips (payloads of
+			// at most 96 bytes), both with recomputed length + checksum
+			for i := 0; i < len(payload); i++ {
+				for v := 0; v < 256; v++ {
+					if byte(v) == payload[i] {
+						continue
+					}
+					p := append([]byte{}, payload...)
+					p[i] = byte(v)
+					judge("byte-value", s, fmt.Sprintf("payload[%d] := %#02x", i, v), reframe(f, p), false)
+				}
+				if rep.Expired() {
+					break
+				}
+			}
+			if len(payload) <= 96 {
+				for i := 0; i < len(payload)*8 && !rep.Expired(); i++ {
+					for j := i + 1; j < len(payload)*8; j++ {
+						p := append([]byte{}, payload...)
+						p[i/8] ^= 1 << (i % 8)
+						p[j/8] ^= 1 << (j % 8)
+						judge("bitflip-pair", s, fmt.Sprintf("payload bits %d,%d", i, j), reframe(f, p), false)
+					}
+				}
+			}
+		}
 		// (f) rejection classes
 		m := append([]byte{}, f...)
 		binary.LittleEndian.PutUint32(m[0:4], uint32(wire.TestNet3))
@@ -507,7 +536,14 @@ func runC14(env core.Env, rep *core.Report) {
 			fa, fb := repOfKind[ka], repOfKind[kb]
 			pa, pb := fa[24:], fb[24:]
 			for i := 0; i <= len(pa); i++ {
-				for _, j := range []int{0, len(pb) / 2, len(pb)} {
+				cuts := []int{0, len(pb) / 2, len(pb)}
+				if env.Tier == "thorough" {
+					cuts = nil
+					for j := 0; j <= len(pb); j++ {
+						cuts = append(cuts, j)
+					}
+				}
+				for _, j := range cuts {
 					p := append(append([]byte{}, pa[:i]...), pb[j:]...)
 					var sm wire.Message
 					for _, x := range frames {
